@@ -81,6 +81,10 @@ type Session struct {
 	UpTLS12 bool `json:"up_tls12,omitempty"`
 	// Wrap is the handler in front of the proxy handler in the upstream-first-wrapped order
 	Wrap string `json:"wrap,omitempty"`
+	// PP: the client's stream is preceded by a PROXY header ("v1", "unknown", "v2"), stripped by a proxy_protocol handler
+	// in front of the proxy handler; PPMatch: the route is selected by the proxy_protocol matcher
+	PP      string `json:"pp,omitempty"`
+	PPMatch bool   `json:"pp_match,omitempty"`
 	// ResetPeer is the peer that resets in the peer-reset-mixed order
 	ResetPeer int `json:"reset_peer,omitempty"`
 }
@@ -132,6 +136,13 @@ func genSession(c *fw.Ctx, i int) *Session {
 		// sends its stream afterwards
 		s.Order, s.DownTLS, s.TLS12, s.Prefetch = "upstream-first-wrapped", false, false, 0
 		s.Wrap = []string{"throttle", "tee"}[r.Intn(2)]
+	}
+	if (s.Order == "client-first" || s.Order == "simultaneous") && !s.DownTLS && r.Intn(6) == 0 {
+		// a PROXY header in front of the client's stream, received by the proxy_protocol handler in front of the proxy
+		// handler (with large chunks the header and the first payload bytes arrive in the same read)
+		s.PP = []string{"v1", "unknown", "v2"}[r.Intn(3)]
+		s.PPMatch = r.Intn(2) == 0
+		s.Prefetch = 0
 	}
 	if s.Order == "upstream-first" {
 		// (in the upstream-first order the client sends nothing until it has seen EOF, so no matcher may wait for its bytes)
@@ -350,6 +361,18 @@ func runSession(c *fw.Ctx, w *world, canary *oracle.Canary, s *Session) {
 	if s.DownTLS {
 		handlers = append(handlers, map[string]any{"handler": "tls"})
 	}
+	W := C // what the client writes
+	switch s.PP {
+	case "v1":
+		W = append([]byte("PROXY TCP4 10.9.8.7 10.1.2.3 4567 443\r\n"), C...)
+	case "unknown":
+		W = append([]byte("PROXY UNKNOWN\r\n"), C...)
+	case "v2":
+		W = append(append([]byte("\r\n\r\n\x00\r\nQUIT\n"), 0x21, 0x11, 0, 12, 10, 9, 8, 7, 10, 1, 2, 3, 0x11, 0xd7, 1, 187), C...)
+	}
+	if s.PP != "" {
+		handlers = append(handlers, map[string]any{"handler": "proxy_protocol"})
+	}
 	switch s.Wrap {
 	case "throttle":
 		handlers = append(handlers, map[string]any{"handler": "throttle", "read_bytes_per_second": 1e9, "read_burst_size": 1 << 20})
@@ -368,6 +391,9 @@ func runSession(c *fw.Ctx, w *world, canary *oracle.Canary, s *Session) {
 	}
 	handlers = append(handlers, tail...)
 	route := map[string]any{"handle": handlers}
+	if s.PPMatch {
+		route["match"] = []any{map[string]any{"proxy_protocol": map[string]any{}}}
+	}
 	if s.DownTLS {
 		route["match"] = []any{map[string]any{"tls": map[string]any{}}}
 	} else if s.Prefetch > 0 {
@@ -424,7 +450,7 @@ func runSession(c *fw.Ctx, w *world, canary *oracle.Canary, s *Session) {
 	}
 	switch s.Order {
 	case "client-first":
-		_ = writeChunks(conn, C, s.Chunk, s.DelayUs)
+		_ = writeChunks(conn, W, s.Chunk, s.DelayUs)
 		_ = conn.(closeWriter).CloseWrite()
 		readAll()
 	case "upstream-first":
@@ -449,7 +475,7 @@ func runSession(c *fw.Ctx, w *world, canary *oracle.Canary, s *Session) {
 	case "simultaneous", "upstream-close-early", "upstream-reset", "peer-reset-mixed":
 		done := make(chan struct{})
 		go func() { readAll(); close(done) }()
-		_ = writeChunks(conn, C, s.Chunk, s.DelayUs)
+		_ = writeChunks(conn, W, s.Chunk, s.DelayUs)
 		_ = conn.(closeWriter).CloseWrite()
 		<-done
 	case "client-abort":
@@ -552,7 +578,7 @@ func runSession(c *fw.Ctx, w *world, canary *oracle.Canary, s *Session) {
 	nt := (s.CLen > 0 && s.ULen > 0) || !graceful
 	c.Obs("sessions_"+s.Order, 1)
 	c.Obs("bytes_relayed", int64(s.CLen*len(ups)+len(got)))
-	c.Case(fw.Hash(s.UpNet, s.UpTLS12, s.Peers, s.DownTLS, s.TLS12, s.Prefetch, s.CLen, s.ULen, s.Order, s.Chunk, s.DelayUs > 0), nt, func() any { return s })
+	c.Case(fw.Hash(s.UpNet, s.UpTLS12, s.Peers, s.DownTLS, s.TLS12, s.PP, s.PPMatch, s.Prefetch, s.CLen, s.ULen, s.Order, s.Chunk, s.DelayUs > 0), nt, func() any { return s })
 }
 
 // interleavingOf reports whether got is an order-preserving interleaving of a and b. Both streams are PRF content
